@@ -34,6 +34,8 @@ const (
 	kCodeB    // conduiterr.New(codeB)
 	kStatus   // grpc status error (AlreadyExists)
 	kConnRefused
+	kUnknown   // conduiterr.New(conduiterr.CodeUnknown): the registered placeholder code
+	kUnknownNF // conduiterr.WithUnknownReason(sentinel, NotFound): placeholder reason, but a known category
 	nLeaves
 	// unary
 	kErrorf    // cerrors.Errorf("ctx: %w", c)
@@ -53,6 +55,9 @@ var unary = []kind{kErrorf, kFatal, kWrapA, kWrapC, kWithCodeB, kOpaque}
 // documents a single %w operand. Call sites that use it anyway are found and probed by TestVerifC20Sites.
 var binary = []kind{kJoin}
 
+// unknownNotFound is the (unregistered) fallback code WithUnknownReason builds: reason internal.unknown, category NotFound.
+var unknownNotFound = conduiterr.WithUnknownReason(cerrors.New("x"), codes.NotFound).Code
+
 type tree struct {
 	k    kind
 	a, b *tree
@@ -60,7 +65,7 @@ type tree struct {
 
 func (t *tree) String() string {
 	names := map[kind]string{kPlain: "plain", kCanceled: "canceled", kSentinel: "sentinel", kCodeA: "codedA", kCodeB: "codedB",
-		kStatus: "grpcstatus", kConnRefused: "econnrefused", kErrorf: "errorf", kFatal: "fatal", kWrapA: "wrapA", kWrapC: "wrapC",
+		kStatus: "grpcstatus", kConnRefused: "econnrefused", kUnknown: "unknown", kUnknownNF: "unknownReason(sentinel,NotFound)", kErrorf: "errorf", kFatal: "fatal", kWrapA: "wrapA", kWrapC: "wrapC",
 		kWithCodeB: "withCodeB", kOpaque: "opaque%v", kJoin: "join", kErrorf2: "errorf2"}
 	switch {
 	case t.a == nil:
@@ -95,6 +100,10 @@ func build(t *tree) error {
 		return grpcstatus.Error(stLeaf, "status leaf")
 	case kConnRefused:
 		return syscall.ECONNREFUSED
+	case kUnknown:
+		return conduiterr.New(conduiterr.CodeUnknown, "unknown")
+	case kUnknownNF:
+		return conduiterr.WithUnknownReason(pipeline.ErrInstanceNotFound, codes.NotFound)
 	case kErrorf:
 		return cerrors.Errorf("ctx: %w", build(t.a))
 	case kFatal:
@@ -145,6 +154,10 @@ func ref(t *tree) class {
 		return class{hasStatus: true, stCode: stLeaf}
 	case kConnRefused:
 		return class{connRef: true}
+	case kUnknown:
+		return class{hasCode: true, code: conduiterr.CodeUnknown}
+	case kUnknownNF:
+		return class{hasCode: true, code: unknownNotFound, sentinel: true}
 	case kOpaque:
 		return class{}
 	case kErrorf:
@@ -286,7 +299,7 @@ func checkTree(rep *verifkit.Report, t *tree) {
 		}
 		// gRPC round trip keeps the code
 		back := conduiterr.FromStatus(conduiterr.ToStatus(ce))
-		if back.Code != ce.Code {
+		if back.Code != ce.Code && ce.Code != unknownNotFound { // the round trip is promised for REGISTERED codes; the category-only fallback is not one
 			fail(fmt.Sprintf("ToStatus->FromStatus changed the code %s -> %s", ce.Code, back.Code), "roundtrip")
 		}
 		if st := conduiterr.ToStatus(ce); st.Code() != want.code.GRPCCode() {
